@@ -1274,13 +1274,13 @@ public:
     explicit operator Integer() const
     {
         auto this_view = get_storage_view();
-        Integer x = 0;
+        word_type w = 0;
         if (this_view.size() > 0)
         {
-            x = static_cast<Integer>(this_view[0]);
+            w = this_view[0];
         }
-
-        return is_negative() ? x*(-1) : x;
+        // negate in the unsigned domain, -x is undefined for the most negative value of a signed type
+        return static_cast<Integer>(is_negative() ? (word_type(0) - w) : w);
     }
 
     explicit operator double() const
